@@ -60,6 +60,7 @@ def build_pe(
     export_at_start=False,
     dos_mode="random",
     dos_stub_start=b"",
+    opt_magic=None,
 ):
     """Returns (image bytes, info).  export_section None = no export directory.  `data` is placed at the
     start of section `data_section` (default: the last one)."""
@@ -121,7 +122,8 @@ def build_pe(
         raw += len(cn)
         va += (len(cn) + 0xFFF) & ~0xFFF
     opt = bytearray(optsize)
-    struct.pack_into("<H", opt, 0, 0x10B if arch == "x86" else 0x20B)
+    # optional-header magic: the standard value unless blanked / customised (stages scrub such fields)
+    struct.pack_into("<H", opt, 0, (0x10B if arch == "x86" else 0x20B) if opt_magic is None else opt_magic)
     struct.pack_into("<I", opt, 60, headers_al)
     ddoff = 96 if arch == "x86" else 112
     struct.pack_into("<I", opt, ddoff - 4, 16)
